@@ -99,7 +99,11 @@ func bitField(nd data.UnixFSData) (bitfield.Bitfield, error) {
 	if err != nil {
 		return nil, err
 	}
-	bf.SetBytes(nd.FieldData().Must().Bytes())
+	bits := nd.FieldData().Must().Bytes()
+	if len(bits) > len(bf) {
+		return nil, fmt.Errorf("hamt bitfield (%d bytes) is larger than the fanout (%d) allows", len(bits), fanout)
+	}
+	bf.SetBytes(bits)
 	return bf, nil
 }
 
